@@ -912,8 +912,119 @@ def run_ub(case):
               counts={"bytes": len(tx) + len(exp), "forced-first-flops": tm.forced})
 
 
+# ======================================================================================= 7. UART core with its PHY in another domain
+
+def st_uc_case(tier):
+    @st.composite
+    def case(draw):
+        nrx = draw(st.integers(4, 24 if tier == "quick" else 60))
+        ntx = draw(st.integers(4, 24 if tier == "quick" else 60))
+        return {"rx": [draw(st.integers(0, 255)) for _ in range(nrx)], "tx": [draw(st.integers(0, 255)) for _ in range(ntx)],
+                "txgap": [draw(st.sampled_from([0, 0, 1, 2, 5, 9])) for _ in range(ntx)],
+                "popgap": [draw(st.sampled_from([0, 1, 1, 2, 4, 8, 20])) for _ in range(nrx + 6)],
+                "depth": draw(st.sampled_from([4, 8, 16])),
+                "edges": draw(cdc.st_edges(max_r=8)), "n": draw(st.integers(150, 500 if tier == "quick" else 2500)),
+                "meta": draw(cdc.st_meta()), "ps": draw(bench.st_schedule()), "cs": draw(bench.st_schedule()),
+                "g": draw(st.one_of(st.none(), st.integers(0, 999)))}
+    return case()
+
+
+@_structural("c05:uart-structure")
+def run_uc(case):
+    """UART(phy_cd='b'): the core's two FIFOs cross between the CSR side (sys) and the PHY side (b).  Software (a CSR bus
+    program in sys) writes bytes to RXTX and pops the receive FIFO through the rx event's pending bit; the PHY side is a
+    stream producer / consumer in b.  What the PHY hands in must be what software pops, what software writes while the FIFO
+    is not full must be what the PHY gets - once, in order."""
+    from migen import Module, ClockDomain
+    from litex.soc.cores import uart
+    from vlib import periph
+    core = uart.UART(phy=None, tx_fifo_depth=case["depth"], rx_fifo_depth=case["depth"], phy_cd="b")
+    top = periph.csr_top(core)
+    top.clock_domains.cd_sys = ClockDomain("sys")
+    top.clock_domains.cd_b = ClockDomain("b")
+    writes = {}
+    t = 3
+    for b_, g_ in zip(case["tx"], case["txgap"]):
+        t += g_
+        writes[t] = ("rxtx", b_)
+        t += 1
+    tw_end = t
+    # pops: clear the rx event (bit 1 of ev_pending); interleaved with the writes (one bus access per step)
+    t = 4
+    pops = 0
+    npop = len(case["rx"]) + 6
+    while pops < npop:
+        t += case["popgap"][pops % len(case["popgap"])] + 1
+        while t in writes:
+            t += 1
+        writes[t] = ("ev_pending", 2)
+        pops += 1
+    n = case["n"]
+    total = n + 800 + 60 * (len(case["rx"]) + len(case["tx"]))
+    inst = fair(cdc.expand_edges(case["edges"], total))
+    us, ub = edges_at(inst, n)
+    # after the generated phase software keeps popping until nothing is left
+    t = max(max(writes) + 2, us)
+    drain_from = t
+    for _ in range(len(case["rx"]) + 4):
+        writes[t] = ("ev_pending", 2)
+        t += 6
+    prog = periph.BusProgram(top, writes, {})
+    prod = bench.Producer(core.sink, [((b_,), (), 0, 0) for b_ in case["rx"]], case["ps"], garbage_seed=case["g"], until=ub)
+    cons = bench.Consumer(core.source, case["cs"], until=ub)
+    probe = bench.Probe([core._rxtx.re, core._rxtx.r, core._txfull.status, core.rx_fifo.source.valid, core.rx_fifo.source.ready,
+                         core.rx_fifo.source.data])
+    last_step = t
+
+    def stop(tm):
+        return len(tm.rise["sys"]) > last_step + 30 and prod.done() and len(cons.got) >= 0 and tm.k > n + 200
+
+    tm, reg = cdc.run(top, {"sys": [prog, probe], "b": [prod, cons]}, inst, ["sys", "b"], case["meta"], stop=stop)
+    cyc = tm.k
+    cls = cdc.edge_classes(inst[:cyc]) + ["depth=%d" % case["depth"]]
+    ctx = "UART(phy_cd='b', fifo depth %d), edges=%r" % (case["depth"], case["edges"])
+    accepted, popped = [], []
+    for r in probe.trace:
+        if r[0] and not r[2]:
+            accepted.append(r[1])
+        if r[3] and r[4]:
+            popped.append(r[5])
+    sent = [t_[0][0] for _, t_ in cons.got]
+    pushed = [t_[0][0] for _, t_ in prod.sent]
+    if cons.hold_violations:
+        return bad("tx-hold", "%s: b-cycle %d: %s" % (ctx, cons.hold_violations[0][0], cons.hold_violations[0][1]), key="c05:uart-hold",
+                   cls=cls, cycles=cyc)
+    for j, (g_, e_) in enumerate(zip(popped, pushed)):
+        if g_ != e_:
+            return bad("rx-data", "%s: byte #%d popped by software is %#x, the PHY handed in %#x (handed in %r, popped %r)" %
+                       (ctx, j, g_, e_, pushed[:j + 3], popped[:j + 3]), key="c05:uart-rx", cls=cls, cycles=cyc)
+    if len(popped) > len(pushed):
+        return bad("rx-spurious", "%s: software popped %d bytes, the PHY handed in %d" % (ctx, len(popped), len(pushed)), key="c05:uart-rx",
+                   cls=cls, cycles=cyc)
+    for j, (g_, e_) in enumerate(zip(sent, accepted)):
+        if g_ != e_:
+            return bad("tx-data", "%s: byte #%d handed to the PHY is %#x, software wrote %#x (written %r, handed over %r)" %
+                       (ctx, j, g_, e_, accepted[:j + 3], sent[:j + 3]), key="c05:uart-tx", cls=cls, cycles=cyc)
+    if len(sent) > len(accepted):
+        return bad("tx-spurious", "%s: the PHY got %d bytes, software wrote %d while the FIFO was not full" % (ctx, len(sent), len(accepted)),
+                   key="c05:uart-tx", cls=cls, cycles=cyc)
+    if len(popped) < len(pushed) or len(sent) < len(accepted) or not prod.done():
+        return bad("termination", "%s: %d of %d received bytes handed in, %d popped; %d written, %d reached the PHY (%d instants)" %
+                   (ctx, len(pushed), len(case["rx"]), len(popped), len(accepted), len(sent), cyc), key="c05:uart-hang", cls=cls, cycles=cyc)
+    if tm.forced:
+        cls.append("forced-resolution")
+    if len(reg) < 4:
+        return bad("structure", "%s: %d synchronisers found, two two-clock FIFOs need four" % (ctx, len(reg)), key="c05:uart-structure",
+                   cls=cls, cycles=cyc)
+    return ok(nt=(len(popped) >= 4 and len(sent) >= 4), cls=cls, cycles=cyc,
+              counts={"bytes": len(popped) + len(sent), "forced-first-flops": tm.forced})
+
+
 def subchecks():
     return [
+        Sub("uart-core-cdc", run_uc, strategy=st_uc_case, examples=(160, 4000), timeout=(900, 20000),
+            rule="UART(phy_cd != sys): software side in sys (CSR bus program), PHY side in another domain, generated edge interleavings with "
+                 "first-flop resolution injection; bytes popped = bytes handed in, bytes written while not full = bytes at the PHY"),
         Sub("cdc-stream", run_stream, strategy=st_stream_case, examples=(1280, 25000), timeout=(900, 20000),
             rule="ClockDomainCrossing / AsyncFIFO / UART FIFO: token sequence preserved under generated edge interleavings, "
                  "first-flop resolutions, handshake schedules and common-reset pulses"),
